@@ -99,9 +99,19 @@ func c20Prop(rt *rapid.T, c *vlib.Case, t *testing.T) {
 	wg.Add(1)
 	go func() {
 		defer wg.Done()
-		// what the websocket handler of cmd/pkappa2 does with every event
-		for ev := range ch {
-			_, _ = json.Marshal(ev)
+		// what the websocket handler of cmd/pkappa2 does with every event; like that handler it does not wait for
+		// the channel to be closed (an event handed over right after the close request leaves it open until the
+		// next event)
+		for {
+			select {
+			case ev, ok := <-ch:
+				if !ok {
+					return
+				}
+				_, _ = json.Marshal(ev)
+			case <-stop:
+				return
+			}
 		}
 	}()
 	// pollers
